@@ -41,6 +41,9 @@ UTC = datetime.timezone.utc
 T0 = datetime.datetime(2001, 1, 1, tzinfo=UTC)
 
 
+QUERIES = ["balances", "balance", "bid_ask", "pair_info", "open_orders", "orders", "order_info", "loans"]
+
+
 def T(day: int) -> datetime.datetime:
     return T0 + datetime.timedelta(days=day)
 
@@ -120,6 +123,9 @@ def gen(r) -> Dict[str, Any]:
         for _ in range(r.choice([0, 1, 1, 2, 3])):
             if suspend and r.random() < 0.5:
                 out.append({"a": "yield", "n": r.randint(1, 4)})
+            if r.random() < 0.3:
+                # a read-only exchange call before acting: library calls are not suspension points of the strategy
+                out.append({"a": "query", "which": r.choice(QUERIES), "pair": r.choice(pairs)})
             x = r.random()
             if x < 0.65:
                 p = r.choice(pairs)
@@ -131,8 +137,11 @@ def gen(r) -> Dict[str, Any]:
             elif x < 0.8:
                 out.append({"a": "cancel", "pick": r.randrange(50)})
             elif nsig and kind != "signal":
+                # a signal may carry several pairs; its handler walks them in the order they were added
+                extra = r.sample(pairs, r.randint(0, len(pairs))) if r.random() < 0.6 else []
                 out.append({"a": "signal", "k": r.randrange(nsig), "pair": r.choice(pairs),
-                            "pos": r.choice(["LONG", "SHORT", "NEUTRAL"])})
+                            "pos": r.choice(["LONG", "SHORT", "NEUTRAL"]),
+                            "extra": [[p2, r.choice(["LONG", "SHORT", "NEUTRAL"])] for p2 in extra]})
             if suspend and r.random() < 0.3:
                 out.append({"a": "yield", "n": r.randint(1, 2)})
         return out
@@ -145,7 +154,8 @@ def gen(r) -> Dict[str, Any]:
     if order_events:
         scripts["order_events"] = [actions("order_events") if r.random() < 0.25 else [] for _ in range(60)]
     for k in range(nsig):
-        scripts[f"signal:{k}"] = [actions("signal") for _ in range(20)]
+        scripts[f"signal:{k}"] = [([{"a": "follow", "amount": r.choice(["1", "2"])}] if r.random() < 0.6 else []) + actions("signal")
+                                  for _ in range(20)]
     return {"pairs": pairs, "bars": bars, "setup": setup, "scripts": scripts, "suspend": suspend, "lend": lend,
             "nsig": nsig, "liq": None, "scarce": r.random() < 0.5, "variant": "mixed", "shared_lists": r.random() < 0.5}
 
@@ -210,11 +220,44 @@ class OneRun:
         signal_sources = [ts.TradingSignalSource(d) for _ in range(sc["nsig"])]
         inv: collections.Counter = collections.Counter()
 
-        async def act(actions, ctx_pair: Optional[str], ev_when):
+        async def act(actions, ctx_pair: Optional[str], ev_when, ev=None):
             for a in actions:
                 if a["a"] == "yield":
                     for _ in range(a["n"]):
                         await asyncio.sleep(0)
+                elif a["a"] == "query":
+                    self.counts["queries"] += 1
+                    try:
+                        w = a["which"]
+                        if w == "balances":
+                            await e.get_balances()
+                        elif w == "balance":
+                            await e.get_balance(a["pair"].split("/")[0])
+                        elif w == "bid_ask":
+                            await e.get_bid_ask(pairs[a["pair"]])
+                        elif w == "pair_info":
+                            await e.get_pair_info(pairs[a["pair"]])
+                        elif w == "open_orders":
+                            await e.get_open_orders(pairs[a["pair"]])
+                        elif w == "orders":
+                            await e.get_orders()
+                        elif w == "order_info" and self.orders:
+                            await e.get_order_info(self.orders[-1]["id"])
+                        elif w == "loans":
+                            await e.get_loans()
+                    except core_errors.Error:
+                        pass
+                elif a["a"] == "follow":
+                    # one market order per pair of the signal, in the order the signal lists them
+                    if ev is not None and hasattr(ev, "get_pairs"):
+                        todo = []
+                        for pr, pos in ev.get_pairs():
+                            if pos != enums.Position.NEUTRAL:
+                                todo.append({"a": "order", "pair": f"{pr.base_symbol}/{pr.quote_symbol}", "kind": "market",
+                                             "side": "buy" if pos == enums.Position.LONG else "sell", "amount": a["amount"],
+                                             "px": "1", "px2": "1", "auto_borrow": False, "auto_repay": False})
+                        self.counts["signal_pairs_followed"] += len(todo)
+                        await act(todo, None, ev_when)
                 elif a["a"] == "order":
                     pair = pairs[a["pair"]]
                     side = Op.BUY if a["side"] == "buy" else Op.SELL
@@ -257,7 +300,11 @@ class OneRun:
                             pass
                 elif a["a"] == "signal":
                     pos = getattr(enums.Position, a["pos"])
-                    signal_sources[a["k"]].push(ts.TradingSignal(d.now(), pos, pairs[a["pair"]]))
+                    sig = ts.TradingSignal(d.now(), pos, pairs[a["pair"]])
+                    for p2, pos2 in a.get("extra", []):
+                        if p2 != a["pair"]:
+                            sig.add_pair(pairs[p2], getattr(enums.Position, pos2))
+                    signal_sources[a["k"]].push(sig)
 
         def mk(name: str, ctx_pair: Optional[str]):
             async def handler(ev):
@@ -265,7 +312,7 @@ class OneRun:
                 inv[name] += 1
                 script = sc["scripts"].get(name, [])
                 if n < len(script):
-                    await act(script[n], ctx_pair, ev.when)
+                    await act(script[n], ctx_pair, ev.when, ev)
             return handler
 
         async def on_order_event(ev):
@@ -367,6 +414,8 @@ def evaluate(sc: Dict[str, Any], res: ShardResult, key: str) -> Dict[str, str]:
                 continue
             res.count("orders_accepted", len(r.orders))
             res.count("fills_checked", r.counts["fills"])
+            res.count("exchange_queries_from_handlers", r.counts["queries"])
+            res.count("signal_pairs_followed", r.counts["signal_pairs_followed"])
             total_fills += r.counts["fills"]
             cross += r.cross_pair_orders
             saw_look_ahead = saw_look_ahead or bool(r.look_ahead)
